@@ -120,15 +120,16 @@ theorem relation_positions_consistent :
 /-- The relation-position specification (DESIGN.md C16), written once from the property text:
     FROM/JOIN (`TableFactor::Table.name`), INSERT/REPLACE target, TRUNCATE targets, and the statement
     kinds whose table name is hooked today.  UPDATE/MERGE targets are table factors.
-    Two positions of the property text are NOT in this table because the code does not hook them
-    (known findings, reported by the oracle): `Delete.tables`, `CopySource::Table.table_name`. -/
+    One position of the property text is NOT in this table because the code does not hook it
+    (known finding, reported by the oracle): `Delete.tables` (a `Vec<ObjectName>`). -/
 def relationSpec : List String := [
   "TableFactor::Table.name", "Insert.table_name", "TruncateTableTarget.name",
   "CreateTable.name", "CreateIndex.table_name",
   "Statement::Analyze.table_name", "Statement::Msck.table_name", "Statement::CreateVirtualTable.name",
   "Statement::CreatePolicy.table_name", "Statement::AlterTable.name", "Statement::AlterView.name",
   "Statement::AlterPolicy.table_name", "Statement::ShowColumns.table_name",
-  "Statement::ExplainTable.table_name", "Statement::Cache.table_name", "Statement::UNCache.table_name"]
+  "Statement::ExplainTable.table_name", "Statement::Cache.table_name", "Statement::UNCache.table_name",
+  "CopySource::Table.table_name", "Statement::CopyIntoSnowflake.into"]
 
 /-- every position of the specification carries `visit(with = "visit_relation")` in the source -/
 theorem relation_positions_hooked :
